@@ -100,3 +100,10 @@ Fixpoint reach (fuel : nat) (from : string) (seen : list string) : list string :
    another lock reaches only the listener lock, which is a leaf (listeners are user code) *)
 Definition lock_order_acyclic : bool :=
   forallb (fun e => negb (existsb (String.eqb (fst e)) (reach 12 (snd e) [snd e]))) edges.
+
+(* calc(): the count of the partition table and the store of the result both happen while the partition lock is
+   held (read or write), so no writer can change the table between them: the model's atomic calc is faithful *)
+Definition calc_store_locked (g : fgen) (fn : string) : bool :=
+  existsb (fun f => fgen_eqb (f_gen f) g && String.eqb (f_fn f) fn && String.eqb (f_target f) "atomic.StoreUint32") facts
+  && forallb (fun f => negb (fgen_eqb (f_gen f) g && String.eqb (f_fn f) fn && String.eqb (f_target f) "atomic.StoreUint32")
+                       || has_held f "partlock:R" || has_held f "partlock:W") facts.
